@@ -203,6 +203,18 @@ theorem linkParent_completes (hr : rule.chainCheck = true) (hn : ∀ cd, Complet
           obtain ⟨g, hl⟩ := hs'.link rule hr t tp hp
           exact OkRes.ok g (by rw [hl]; exact Nat.le_refl _)
 
+theorem headerStep_completes (hr : rule.chainCheck = true) (hn : ∀ cd, Completes (fun s => nested s cd))
+    (t : Nat) (d : ClassDecl α) : Completes (headerStep rule norm ds nested t d) := by
+  intro s hs
+  simp only [headerStep]
+  split
+  · apply (linkParent_completes rule norm ds nested hr hn t d s hs).andThen
+    intro s' hs'
+    obtain ⟨g1, l1⟩ := hs'.insertSym t d.name
+    obtain ⟨g2, l2⟩ := g1.insertSym t d.name
+    exact OkRes.ok g2 (by rw [l2, l1]; exact Nat.le_refl _)
+  · exact OkRes.ok hs (Nat.le_refl _)
+
 theorem declStep_completes (hn : ∀ cd, Completes (fun s => nested s cd)) (t : Nat) (uses : List α) (dc : Decl α) :
     Completes (fun s => declStep norm ds nested t uses s dc) := by
   intro s hs
@@ -230,22 +242,12 @@ theorem annotateBody_completes (hr : rule.chainCheck = true) (hn : ∀ cd, Compl
       pub := (norm d.name, s.tables.length) :: s.pub,
       full := if defsOnly then s.full else norm d.name :: s.full } : St α).tables.length := by
     simp [St.newTable]
-  have h1 : OkRes s.tables.length ((linkParent rule norm ds nested s.tables.length d
+  have h1 : OkRes s.tables.length (headerStep rule norm ds nested s.tables.length d
       ({ (s.newTable d.name).1 with
           pub := (norm d.name, s.tables.length) :: s.pub,
-          full := if defsOnly then s.full else norm d.name :: s.full } : St α)).andThen
-      fun s' => Res.ok ((s'.insertSym s.tables.length d.name).insertSym s.tables.length d.name)) := by
-    have a := linkParent_completes rule norm ds nested hr hn s.tables.length d _ h0
-    have a' : OkRes s.tables.length (linkParent rule norm ds nested s.tables.length d
-        ({ (s.newTable d.name).1 with
-          pub := (norm d.name, s.tables.length) :: s.pub,
-          full := if defsOnly then s.full else norm d.name :: s.full } : St α)) :=
-      ⟨a.1, a.2.1, Nat.le_trans hlen a.2.2⟩
-    apply a'.andThen
-    intro s' hs'
-    obtain ⟨g1, l1⟩ := hs'.insertSym s.tables.length d.name
-    obtain ⟨g2, l2⟩ := g1.insertSym s.tables.length d.name
-    exact OkRes.ok g2 (by rw [l2, l1]; exact Nat.le_refl _)
+          full := if defsOnly then s.full else norm d.name :: s.full } : St α)) := by
+    have a := headerStep_completes rule norm ds nested hr hn s.tables.length d _ h0
+    exact ⟨a.1, a.2.1, Nat.le_trans hlen a.2.2⟩
   have h2 := foldl_andThen_completes d.decls (fun s' dc => declStep norm ds nested s.tables.length d.uses s' dc)
     (declStep_completes norm ds nested hn _ _) _ _ h1
   split
@@ -409,10 +411,18 @@ theorem request_completes (hr : rule.chainCheck = true) (hv : rule.visitedWalks 
       intro s1 hs1
       apply OkRes.andThen (ensureNodes_completes rule norm ds hr _ s1 hs1)
       intro s2 hs2
-      exact foldl_andThen_completes d.members (fun s m => memberWalks rule norm ds ci (declaresAt norm ds m) s)
-        (fun m => memberWalks_completes rule norm ds hr hv ci _) _ _ (OkRes.ok hs2 (Nat.le_refl _))
+      simp only []
+      split
+      · exact foldl_andThen_completes d.members (fun s m => memberWalks rule norm ds ci (declaresAt norm ds m) s)
+          (fun m => memberWalks_completes rule norm ds hr hv ci _) _ _ (OkRes.ok hs2 (Nat.le_refl _))
+      · exact OkRes.ok hs2 (Nat.le_refl _)
     | hierx =>
-      exact OkRes.andThen (ensureTable_completes rule norm ds hr _ s hs) (memberWalks_completes rule norm ds hr hv ci _)
+      apply OkRes.andThen (ensureTable_completes rule norm ds hr _ s hs)
+      intro s1 hs1
+      simp only []
+      split
+      · exact memberWalks_completes rule norm ds hr hv ci _ s1 hs1
+      · exact OkRes.ok hs1 (Nat.le_refl _)
 
 theorem runRequests_completes (hr : rule.chainCheck = true) (hv : rule.visitedWalks = true)
     (reqs : List (Kind × Nat)) : Completes (runRequests rule norm ds reqs) := by
